@@ -72,6 +72,7 @@ def run(prog: Program, rep: Report, tier: str):
     rule_static(prog, rep)
     rule_closure(prog, rep)
     rule_effect(prog, rep, fns)
+    rule_unwrap_keeps_static(prog, rep)
     from .lints import rule_error_if_consumed
     rule_error_if_consumed(prog, rep, "C14.error-if", minimum=4)
     from .lints import rule_jit_captures
@@ -81,6 +82,54 @@ def run(prog: Program, rep: Report, tier: str):
     if tier == "thorough":
         from ..audit import audit_generic
         audit_generic(prog, rep, "C14")
+
+
+ARRAY_ONLY_FILTERS = {"equinox.is_array", "equinox.is_inexact_array", "equinox.is_inexact_array_like"}
+
+
+def rule_unwrap_keeps_static(prog, rep, R="C14.unwrap-static"):
+    """unwrap runs inside every traced method.  A wrapper whose unwrap pushes part of the wrapped subtree through a jax
+    operation must select that part with an array-only filter: eqx.is_array_like also admits Python ints / bools, so
+    the shape tuples, axes and flags of a wrapped submodule come back as jax arrays - tracers under jit - and the
+    Python-level shape checks and branches of the bijection methods then raise, although the eager call works."""
+    from ..terms import Interp, walk, show
+    rep.rule(R, "no wrapper's unwrap passes Python-static leaves of the wrapped subtree (ints, bools: shapes, axes, "
+                "flags) through a jax operation: the part of an eqx.partition that flows into jax / lax calls is "
+                "selected with eqx.is_array, is_inexact_array or is_inexact_array_like, never with is_array_like", minimum=1)
+    n = 0
+    for c in prog.subclasses(UNWRAPPABLE):
+        if "unwrap" not in c.methods:
+            continue
+        t = Interp(prog).eval_method(c, "unwrap", [])
+        parts = {}
+        for s in walk(t):
+            if s[0] == "call" and s[1] == ("ext", "equinox.partition"):
+                parts[id(s)] = s
+        if not parts:
+            continue
+        for p in parts.values():
+            first = ("sub", p, ("const", 0))
+            used_in_jax = any(s[0] == "call" and s[1][0] == "ext" and s[1][1].startswith(("jax.lax.", "jax.numpy.", "jax.nn."))
+                              and any(a == first for a in list(s[2]) + [v for _, v in s[3]]) for s in walk(t))
+            if not used_in_jax:
+                continue
+            n += 1
+            spec = dict(p[3]).get("filter_spec")
+            site = f"{c.module.relpath}:{c.methods['unwrap'].lineno}"
+            k = f"{c.qualname}.unwrap:partition-filter"
+            if spec is not None and spec[0] == "ext" and spec[1] in ARRAY_ONLY_FILTERS:
+                rep.holds(R, site, k, f"{spec[1]}: only arrays (and Python floats) reach the jax operation")
+            elif spec == ("ext", "equinox.is_array_like"):
+                rep.violated(R, site, k,
+                             f"{c.name}.unwrap selects the part it passes through a jax operation with eqx.is_array_like, which "
+                             f"admits Python ints and bools: the shape tuple / axes / flags of a wrapped submodule become jax "
+                             f"arrays, i.e. tracers under jit, and e.g. `x.shape != self.shape` in the method wrapper raises "
+                             f"TracerBoolConversionError - eqx.filter_jit(Chain([{c.name}(Affine(zeros(3))), ...]).transform)(x) "
+                             f"fails while the eager call works")
+            else:
+                rep.undecided(R, site, k, f"partition filter {show(spec, 80) if spec else None} not classified")
+    if n == 0:
+        rep.undecided(R, "-", "unwrap:partition-into-jax", "no unwrap passes a partition through a jax operation any more")
 
 
 def _callee_of(prog, m, node):
@@ -289,7 +338,13 @@ def rule_effect(prog, rep, fns, R="C14.effect", minimum=100):
                                    "functools.cached_property"):
                 makes_arrays = any(isinstance(n2, ast.Call) and ast.unparse(n2.func).startswith(
                     ("jnp.", "jax.", "jr.", "lax.", "eqx.")) for n2 in ast.walk(fn))
-                if makes_arrays:
+                calls_repo = any(isinstance(n2, ast.Call) and isinstance(n2.func, ast.Name) and
+                                 str(prog.resolve(m, n2.func.id)).startswith("flowjax.") for n2 in ast.walk(fn))
+                if d.split("(")[0].endswith("cached_property") and c is not None:
+                    # stored in the instance __dict__ on first access: state no pytree operation sees; computed under a
+                    # trace it holds that trace's tracers for the object's lifetime
+                    bad.append((fn.lineno, f"@cached_property {fn.name} on a module class (per-instance hidden cache)"))
+                elif makes_arrays or calls_repo:
                     bad.append((fn.lineno, f"@{d.split('(')[0]} on a function that builds jax arrays"))
         if bad:
             for line, what in bad:
